@@ -12,52 +12,47 @@ export CARGO_NET_OFFLINE=true
 export RUSTFLAGS="--cfg bigdecimal_verif"
 export VERIF_SEED=${VERIF_SEED:-0}
 
-# precision mode lower upper padding
+# precision mode lower upper padding [chk]   (chk: build with debug assertions and overflow checks)
+# quick: every rounding mode once, precisions on both sides of the stock 100, every threshold / limit value
 QUICK_CONFIGS="
 1 Up 1 0 0
 3 Floor 9 40 5
 34 HalfDown 5 2 1000
 250 Ceiling 5 15 5
+16 Down 1 40 1000 chk
+2 HalfUp 9 2 0
+100 HalfEven 1 0 5
 "
-# covering array: every value of every parameter and every (precision, mode) pair family is hit
-THOROUGH_CONFIGS="
-1 Up 1 0 0
-1 HalfEven 5 15 1000
-2 Down 5 2 5
-2 Ceiling 9 40 1000
-3 Floor 9 40 5
-3 HalfUp 1 15 0
-7 HalfDown 1 2 1000
-7 Up 9 0 5
-16 HalfEven 1 40 5
-16 Down 9 15 0
-34 HalfDown 5 2 1000
-34 Ceiling 1 0 1000
-100 Floor 5 15 1000
-100 Up 1 40 0
-100 HalfUp 9 2 5
-250 HalfEven 9 0 1000
-250 Down 1 15 5
-250 Ceiling 5 40 0
-1 Floor 9 2 5
-2 HalfUp 1 0 1000
-3 HalfDown 5 15 1000
-7 HalfEven 5 40 0
-16 Ceiling 5 0 5
-34 Up 9 15 0
-"
+# thorough: all 56 (precision, mode) pairs; the three formatting parameters cycle with coprime periods so that
+# every value of each meets every precision and every mode; every fifth row is built with debug assertions
+THOROUGH_CONFIGS=$(
+    i=0; pi=0
+    for P in 1 2 3 7 16 34 100 250; do
+        mi=0
+        for M in Up Down Ceiling Floor HalfUp HalfDown HalfEven; do
+            LO=$(echo "1 5 9" | cut -d" " -f$(((pi + 2 * mi) % 3 + 1)))
+            UP=$(echo "0 2 15 40" | cut -d" " -f$(((pi + mi) % 4 + 1)))
+            PAD=$(echo "0 5 1000" | cut -d" " -f$(((2 * pi + mi) % 3 + 1)))
+            CHK=""; [ $((i % 5)) -eq 2 ] && CHK=chk
+            echo "$P $M $LO $UP $PAD $CHK"
+            i=$((i+1)); mi=$((mi+1))
+        done
+        pi=$((pi+1))
+    done
+)
 
 build_cfg() { # P mode lower upper padding
     RUST_BIGDECIMAL_DEFAULT_PRECISION=$1 RUST_BIGDECIMAL_DEFAULT_ROUNDING_MODE=$2 \
     RUST_BIGDECIMAL_FMT_EXPONENTIAL_LOWER_THRESHOLD=$3 RUST_BIGDECIMAL_FMT_EXPONENTIAL_UPPER_THRESHOLD=$4 \
     RUST_BIGDECIMAL_FMT_MAX_INTEGER_PADDING=$5 \
-    cargo build --release --manifest-path "$HERE/Cargo.toml" --target-dir "$TDIR" >"$WORK/build-cfg.log" 2>&1
+    cargo build ${PROFILE_FLAG:---release} --manifest-path "$HERE/Cargo.toml" --target-dir "$TDIR" >"$WORK/build-cfg.log" 2>&1
 }
 
 if [ "${1:-}" = replay ]; then
     file=${2:?file}
     cfg=$(python3 -c "import json,sys; c=json.load(open(sys.argv[1]))['config']; print(c['precision'],c['mode'],c['lower'],c['upper'],c['padding'])" "$file") || exit 2
     set -- $cfg
+    PROFILE_FLAG="--release"
     build_cfg "$@" || { echo "C20: build failed for configuration $*; see $WORK/build-cfg.log" >&2; tail -n 30 "$WORK/build-cfg.log" >&2; exit 2; }
     "$TDIR/release/bdcfg" replay "$file" --expect "$1,$2,$3,$4,$5"
     exit $?
@@ -70,16 +65,19 @@ rm -f "$ROOT/evidence/C20.json" "$WORK"/partial-C20-*.json
 rc=0
 i=0
 partials=()
-while read -r P M LO UP PAD; do
+while read -r P M LO UP PAD CHK; do
     [ -z "${P:-}" ] && continue
     i=$((i+1))
+    PROFILE_FLAG="--release"; BINDIR=release
+    if [ "${CHK:-}" = chk ]; then PROFILE_FLAG="--profile chk"; BINDIR=chk; fi
+    export PROFILE_FLAG
     if ! build_cfg "$P" "$M" "$LO" "$UP" "$PAD"; then
         echo "C20: build failed for configuration $P $M $LO $UP $PAD; see $WORK/build-cfg.log" >&2
         tail -n 30 "$WORK/build-cfg.log" >&2
         exit 2
     fi
     part=$WORK/partial-C20-$tier-$i.json
-    timeout --signal=KILL 1800 "$TDIR/release/bdcfg" run "$tier" --out "$part" --expect "$P,$M,$LO,$UP,$PAD"
+    timeout --signal=KILL 1800 "$TDIR/$BINDIR/bdcfg" run "$tier" --out "$part" --expect "$P,$M,$LO,$UP,$PAD"
     r=$?
     if [ $r -eq 1 ]; then rc=1; elif [ $r -ne 0 ]; then echo "C20: probe exited with $r for configuration $P $M $LO $UP $PAD" >&2; exit 2; fi
     [ -f "$part" ] && partials+=("$part")
